@@ -180,9 +180,10 @@ func verifyClientRequest(w http.ResponseWriter, r *http.Request) (errCode int, _
 		return http.StatusMethodNotAllowed, fmt.Errorf("WebSocket protocol violation: handshake request method is not GET but %q", r.Method)
 	}
 
-	if r.Header.Get("Sec-WebSocket-Version") != "13" {
+	// Header.Get would only look at the first of several Sec-WebSocket-Version lines.
+	if versions := r.Header.Values("Sec-WebSocket-Version"); len(versions) != 1 || versions[0] != "13" {
 		w.Header().Set("Sec-WebSocket-Version", "13")
-		return http.StatusBadRequest, fmt.Errorf("unsupported WebSocket protocol version (only 13 is supported): %q", r.Header.Get("Sec-WebSocket-Version"))
+		return http.StatusBadRequest, fmt.Errorf("unsupported WebSocket protocol version (only 13 is supported): %q", strings.Join(versions, ", "))
 	}
 
 	websocketSecKeys := r.Header.Values("Sec-WebSocket-Key")
